@@ -239,7 +239,7 @@ pub fn run(ctx: &mut Ctx) {
     for (n, ok) in r9::selftest(ctx.shard == 0) {
         ctx.selftest(&n, ok);
     }
-    ctx.require(&["annex_kat", "honest_keys_equal", "tampered_keys_differ", "responder_rejects_offcurve_RA", "initiator_rejects_offcurve_RB", "tamper=RaOther", "tamper=RbOther", "tamper=RaBitflipOnCurve", "tamper=RbNeg", "klen=1", "klen=128", "parties_have_public_master_key_only", "sparse_ephemeral_scalars", "kdf_direct", "ke=H1(id)_doubling_in_Q", "sk_all_zero_retry_path", "crafted_valid_R_A", "id_beyond_2^16_bits"]);
+    ctx.require(&["annex_kat", "honest_keys_equal", "tampered_keys_differ", "responder_rejects_offcurve_RA", "initiator_rejects_offcurve_RB", "tamper=RaOther", "tamper=RbOther", "tamper=RaBitflipOnCurve", "tamper=RbNeg", "klen=1", "klen=128", "parties_have_public_master_key_only", "sparse_ephemeral_scalars", "kdf_direct", "ke=H1(id)_doubling_in_Q", "sk_all_zero_retry_path", "crafted_valid_R_A", "id_beyond_2^16_bits", "same_id_both_parties"]);
     let pr = r9::params();
     let mut paux = ctx.prng("aux");
     if ctx.shard == 0 {
@@ -321,6 +321,13 @@ pub fn run(ctx: &mut Ctx) {
         if la >= 8186 || lb >= 8186 {
             ctx.class("id_beyond_2^16_bits");
         }
+        // aliasing: both parties carry the same identity (then also the same private key)
+        let idb = if i % 16 == 7 {
+            ctx.class("same_id_both_parties");
+            ida.clone()
+        } else {
+            idb
+        };
         let ke = if i % 16 == 9 {
             ctx.class("ke=H1(id)_doubling_in_Q");
             r9::h1(&idb, r9::HID_EXCH)
